@@ -37,11 +37,12 @@ PINNED = [
 
 KNOWN = {
     "blank_after_header": "C11e a blank line directly after a block header (`if c` / blank / indented body) makes the "
-                          "formatter emit the body without indentation: the output does not parse",
+                          "formatter emit the body without indentation: the output does not parse; a blank line directly "
+                          "before `else` / `catch` / `finally` is moved behind that header (and then hits the same defect)",
     "forced_chain_break": "C11f a chain that chain_break_threshold (> 0) forces onto several lines is broken even where the "
                           "grammar does not allow it (inside an `if` condition, an inline if, brackets): the output does not "
                           "parse",
-    "comment_mid_expression": "C11g a comment in the middle of an expression (inside brackets / parentheses, or after `=`, an "
+    "comment_mid_expression": "C11g a comment or blank line in the middle of an expression (inside brackets / parentheses, or after `=`, an "
                               "operator or a comma at a line end) is moved in front of what follows (`] # note[0]` swallows "
                               "`[0]`) or the rest is re-indented differently on every pass",
     "multi_line_chain_root": "C11h a bracketed literal that spans several lines and is continued by `.method()` is printed "
@@ -246,6 +247,32 @@ def class_c11e(src):
             ind = lambda l: len(l) - len(l.lstrip(" \t"))
             if ind(lines[j]) > ind(lines[k]):
                 return True
+            # ... or directly precedes the `else` / `else if` / `catch` / `finally` header of the same construct
+            # (the blank line is moved BEHIND that header, where the next pass trips over it)
+            first = lines[j].split()[0] if lines[j].split() else ""
+            if first in ("else", "catch", "finally"):
+                return True
+    return False
+
+
+def class_blank_mid_expression(src):
+    """a blank line inside an expression that continues over several lines: the next non-blank line starts with `.` or
+    a binary operator, or the previous one ends with an operator / comma / opening bracket / `=`"""
+    lines = src.split("\n")
+    ops = ("+", "*", "/", "%", "^", "and ", "or ", "==", "!=", "<", ">", "->", "- ")
+    for k in range(1, len(lines) - 1):
+        if lines[k].strip() != "":
+            continue
+        i, j = k - 1, k + 1
+        while i >= 0 and lines[i].strip() == "":
+            i -= 1
+        while j < len(lines) and lines[j].strip() == "":
+            j += 1
+        if i < 0 or j >= len(lines):
+            continue
+        nxt, prv = lines[j].strip(), G.strip_trivia(lines[i].rstrip("\r"))
+        if nxt.startswith(".") or nxt.startswith(ops) or G.ends_open(prv) or prv.endswith((",", "(", "[", "{")):
+            return True
     return False
 
 
@@ -253,6 +280,8 @@ def known_classes(r, src):
     ks = [k for k, v in (r.get("classes") or {}).items() if v]
     if class_c11e(src):
         ks.append("blank_after_header")
+    if class_blank_mid_expression(src):
+        ks.append("comment_mid_expression")
     return ks
 
 
